@@ -8,6 +8,7 @@ import (
 	"strings"
 	"sync"
 
+	"github.com/cnotch/ipchub/av/format/flv"
 	"github.com/cnotch/ipchub/av/format/rtp"
 	"github.com/cnotch/ipchub/config"
 	"github.com/cnotch/ipchub/media"
@@ -17,9 +18,13 @@ import (
 	"vh/sched"
 )
 
-const sdpH264 = "v=0\r\no=- 0 0 IN IP4 127.0.0.1\r\ns=t\r\nc=IN IP4 0.0.0.0\r\nt=0 0\r\n" +
-	"m=video 0 RTP/AVP 96\r\na=rtpmap:96 H264/90000\r\na=control:streamid=0\r\n" +
-	"m=audio 0 RTP/AVP 97\r\na=rtpmap:97 MPEG4-GENERIC/44100/2\r\na=control:streamid=1\r\n"
+const sdpH264 = "v=0\r\no=- 0 0 IN IP4 127.0.0.1\r\ns=t\r\nc=IN IP4 127.0.0.1\r\nt=0 0\r\n" +
+	"m=video 0 RTP/AVP 96\r\na=rtpmap:96 H264/90000\r\n" +
+	"a=fmtp:96 packetization-mode=1; sprop-parameter-sets=Z2QAH6zZQFAFuhAAAAMAEAAAAwPI8YMZYA==,aO+8sA==; profile-level-id=64001F\r\n" +
+	"a=control:streamid=0\r\n" +
+	"m=audio 0 RTP/AVP 97\r\na=rtpmap:97 MPEG4-GENERIC/44100/2\r\n" +
+	"a=fmtp:97 profile-level-id=1;mode=AAC-hbr;sizelength=13;indexlength=3;indexdeltalength=3; config=121056E500\r\n" +
+	"a=control:streamid=1\r\n"
 
 // recording consumer
 type rec struct {
@@ -31,11 +36,18 @@ type rec struct {
 }
 
 func (r *rec) Consume(p media.Pack) {
-	pk := p.(*rtp.Packet)
+	var id int64
+	var data []byte
+	if pk, ok := p.(*rtp.Packet); ok {
+		id, data = idOf(pk), pk.Data
+	} else {
+		tg := p.(*flv.Tag)
+		id, data = tagID(tg), append([]byte{tg.TagType}, tg.Data...)
+	}
 	r.mu.Lock()
-	r.out = append(r.out, idOf(pk))
+	r.out = append(r.out, id)
 	h := uint32(2166136261)
-	for _, b := range pk.Data {
+	for _, b := range data {
 		h = (h ^ uint32(b)) * 16777619
 	}
 	r.hashes = append(r.hashes, h)
@@ -77,6 +89,37 @@ func MakePacket(id int64, kind int64) *rtp.Packet {
 	return pk
 }
 
+// MakeTag builds an FLV tag that the FLV cache classifies as the given kind and that carries id.
+// kind: 1 media (inter video frame), 2 key video frame, 3 video sequence header, 4 AAC sequence header, 5 onMetaData.
+func MakeTag(id int64, kind int64) *flv.Tag {
+	idb := []byte{byte(id >> 24), byte(id >> 16), byte(id >> 8), byte(id)}
+	t := &flv.Tag{Timestamp: uint32(1000 + id*40)}
+	switch kind {
+	case 5:
+		t.TagType = flv.TagTypeAmf0Data
+		t.Data = append(append([]byte{2, 0, 10}, []byte("onMetaData")...), idb...)
+	case 3:
+		t.TagType = flv.TagTypeVideo
+		t.Data = append([]byte{0x17, 0}, idb...)
+	case 4:
+		t.TagType = flv.TagTypeAudio
+		t.Data = append([]byte{0xAF, 0}, idb...)
+	case 2:
+		t.TagType = flv.TagTypeVideo
+		t.Data = append([]byte{0x17, 1}, idb...)
+	default:
+		t.TagType = flv.TagTypeVideo
+		t.Data = append([]byte{0x27, 1}, idb...)
+	}
+	t.DataSize = uint32(len(t.Data))
+	return t
+}
+
+func tagID(t *flv.Tag) int64 {
+	d := t.Data[len(t.Data)-4:]
+	return int64(d[0])<<24 | int64(d[1])<<16 | int64(d[2])<<8 | int64(d[3])
+}
+
 func idOf(pk *rtp.Packet) int64 {
 	d := pk.Data
 	return int64(d[13])<<24 | int64(d[14])<<16 | int64(d[15])<<8 | int64(d[16])
@@ -89,6 +132,7 @@ func Run(c Val) Val {
 	quiet.Do(func() { xlog.ReplaceGlobal(xlog.New(xlog.NewNopCore())) })
 	n := int(c.At(1).Int())
 	gop := c.At(3).Bool()
+	flvMode := c.At(8).Bool() // publish FLV tags through WriteFlvTag to FLV consumers instead of RTP packets
 	config.VerifSetCacheGop(gop)
 	maxq := int(c.At(2).Int())
 	if maxq == 1000 {
@@ -118,7 +162,7 @@ func Run(c Val) Val {
 		}
 		return ""
 	}
-	allowed := map[string]string{"pub": " h.start h.pub write.checked write.cached ", "clo": " h.start close.status sweep.zero ",
+	allowed := map[string]string{"pub": " h.start h.pub write.checked write.cached flvwrite.checked flvwrite.cached ", "clo": " h.start close.status sweep.zero ",
 		"att": " h.start attach.snapped attach.added ", "sto": " h.start remove.loaded ", "con": " consume.pop consume.got remove.loaded "}
 	ctl.Allow = func(thread, point string) bool {
 		return strings.Contains(allowed[thread[:3]], " "+point+" ")
@@ -131,8 +175,11 @@ func Run(c Val) Val {
 	remaining := len(pkts)
 	ctl.Go("pub", func() {
 		for _, pv := range pkts {
-			pk := MakePacket(pv.At(0).Int(), pv.At(1).Int())
-			s.WriteRtpPacket(pk)
+			if flvMode {
+				s.WriteFlvTag(MakeTag(pv.At(0).Int(), pv.At(1).Int()))
+			} else {
+				s.WriteRtpPacket(MakePacket(pv.At(0).Int(), pv.At(1).Int()))
+			}
 			remaining--
 			ctl.Here("h.pub")
 		}
@@ -142,7 +189,11 @@ func Run(c Val) Val {
 		i := i
 		ctl.Go("att:"+strconv.Itoa(i), func() {
 			// the consumer id is fixed inside startConsume; learn it at attach.snapped via AtID
-			cid := s.StartConsume(recs[i], media.RTPPacket, "lts")
+			pt := media.RTPPacket
+			if flvMode {
+				pt = media.FLVPacket
+			}
+			cid := s.StartConsume(recs[i], pt, "lts")
 			cmu.Lock()
 			cids[i], known[i] = cid, true
 			byCid[uint32(cid)] = i
@@ -221,9 +272,13 @@ func Run(c Val) Val {
 		for j, id := range r.out {
 			outs[j] = I(id)
 			// byte identity: the delivered packet hashes like the packet that was published under that id
-			orig := MakePacket(id, kindOf[id])
+			odata := MakePacket(id, kindOf[id]).Data
+			if flvMode {
+				tg := MakeTag(id, kindOf[id])
+				odata = append([]byte{tg.TagType}, tg.Data...)
+			}
 			h := uint32(2166136261)
-			for _, b := range orig.Data {
+			for _, b := range odata {
 				h = (h ^ uint32(b)) * 16777619
 			}
 			if h != r.hashes[j] {
@@ -253,8 +308,11 @@ func Run(c Val) Val {
 		}
 		consV[i] = L(L(outs...), I(int64(closes)), I(pc), Bo(reg), I(ql), Bo(disc), I(att), I(stp), Bo(intact))
 	}
-	rc, _ := media.VerifCounts(s)
-	pp := code(ctl.Status("pub"), map[string]int64{"h.start": 0, "h.pub": 0, "done": 0, "write.checked": 1, "write.cached": 2, "blocked": 3})
+	rc, fc := media.VerifCounts(s)
+	if flvMode {
+		rc = fc
+	}
+	pp := code(ctl.Status("pub"), map[string]int64{"h.start": 0, "h.pub": 0, "done": 0, "write.checked": 1, "write.cached": 2, "flvwrite.checked": 1, "flvwrite.cached": 2, "blocked": 3})
 	kp := code(ctl.Status("close"), map[string]int64{"h.start": 0, "close.status": 1, "sweep.zero": 2, "done": 5})
 	todo := remaining
 	out := L(L(consV...), I(int64(rc)), Bo(media.VerifStatus(s) == media.StreamOK), I(pp), I(int64(todo)), I(kp))
